@@ -34,6 +34,11 @@ func runC06(c *Ctx) {
 	fsmApplyAdd(c, "R5", applyAdd)
 	commandCodec(c, "R5")
 	rebuildOnOpen(c, "R6")
+	c.Rule("R7", "a replica that rejoins by state transfer asks for, is sent and loads exactly what it lacks", 5)
+	transferRequest(c, "R7")
+	fsmValidate(c, "R7")
+	streamReaderForwardsError(c, "R7")
+	streamEndOnlyOnEOF(c, "R7", c.P.MustMethod("storage/rocks", "RocksDBStore", "LoadSnapshot"))
 }
 
 // reachableFrom: module functions reachable from entry over the VTA graph (module callees only; closures of reachable functions included).
@@ -391,4 +396,29 @@ func commandCodec(c *Ctx, rule string) {
 		}
 	}
 	c.Check(okN, rule, funcName(nc), nc.Pos(), "id = data[0], data kept whole", "a received command is not rebuilt as {id: data[0], data: data}")
+	// every decode fills a fresh destination: msgpack neither truncates a longer slice it is given nor
+	// allocates new element storage, so a reused destination carries over elements of the previous
+	// command and aliases what was handed out from it
+	nd := 0
+	for _, fn := range p.ModFuncs {
+		if !p.Production(fn) || fn.Pkg != dec.Pkg {
+			continue
+		}
+		for _, call := range callsIn(fn, func(k *ssa.CallCommon) bool { return k.StaticCallee() == dec }) {
+			nd++
+			dst := callCommon(call).Args[1]
+			fresh := false
+			if mi, isMI := dst.(*ssa.MakeInterface); isMI {
+				dst = mi.X
+			}
+			if al, isAl := dst.(*ssa.Alloc); isAl && al.Parent() == fn {
+				whole, byField := p.storesTo(al)
+				fresh = len(whole) == 0 && len(byField) == 0
+			}
+			c.Check(fresh, rule, funcName(fn)+":decode-destination", call.Pos(), "decoded into a fresh local", "the command is decoded into "+p.TermOf(dst).String()+", which outlives this call (or already has content): elements of the previous command survive in it and snapshots built from the previous one are overwritten in place")
+		}
+	}
+	if nd == 0 {
+		c.Fail(rule, "consensus:decode-destination", dec.Pos(), "no production use of command.decode found")
+	}
 }
